@@ -308,9 +308,13 @@ IsLin(mk) == mk \in {"lin_dense", "lin_sparse", "lin_func"}
 IsPde(mk) == mk \in {"pde_grad", "pde_jac"}
 NeedsVec(mk) == mk \in {"lin_dense", "lin_sparse", "gen_jac", "pde_grad", "pde_jac"}    \* callables working on 1-D function vectors
 
-C12Dom(n) == { g \in LinGeoms(n) : g.kind \notin {"default1d", "discrete"} } \cup NonLinGeoms(n)
-                \cup { Geo("step", n, StepK(n, FALSE), 1, n, "max", StepAsg(n, FALSE)) }
-C12Rng(n) == { g \in LinGeoms(n) : g.kind \notin {"default1d", "visual", "cont2d"} /\ ~(g.kind = "step" /\ g.k = 2) }
+\* the lean instance (NF = 1, quick tier) leaves out near-duplicates: visual-only ~ cont1d, balanced ~ unbalanced steps, discrete ~ cont1d
+Lean == NF = 1
+C12Dom(n) == { g \in LinGeoms(n) : /\ g.kind \notin {"default1d", "discrete"}
+                                   /\ (Lean => (g.kind # "visual" /\ ~(g.kind = "step" /\ g.k = 2))) }
+                \cup NonLinGeoms(n) \cup { Geo("step", n, StepK(n, FALSE), 1, n, "max", StepAsg(n, FALSE)) }
+C12Rng(n) == { g \in LinGeoms(n) : /\ g.kind \notin {"default1d", "visual", "cont2d"} /\ ~(g.kind = "step" /\ g.k = 2)
+                                   /\ (Lean => g.kind # "discrete") }
                 \cup { Geo("step", n, StepK(n, TRUE), 1, n, "min", StepAsg(n, TRUE)), Geo("mappednl", n, n, 1, n, "", <<>>) }
 
 C12Configs == { [part |-> "C12", mk |-> mk, dg |-> dg, rg |-> rg, fi |-> fi] :
